@@ -77,7 +77,19 @@ def rand_spec(rnd, tier="quick", zones=None, jobless_ok=True, server_types=("aut
             O[up]["params"]["hourly_usage_journey_starts"] = ["h", [rnd.choice(START_VALUES[2:]) for _ in range(n)], st, "dimensionless"]
         O["up1"]["params"]["usage_journey"] = O["up0"]["params"]["usage_journey"]
         O["up1"]["params"]["network"] = O["up0"]["params"]["network"]
-    O["system"] = {"cls": "System", "params": {"usage_patterns": ["refs", [f"up{i}" for i in range(nup)]]}}
+    ups_ = [f"up{i}" for i in range(nup)]
+    if rnd.random() < 0.15:
+        # an "island": a pattern that shares no job, journey or network with the others - the only kind of pattern that can leave the
+        # system (and come back) without leaving dangling shared objects behind
+        O["sti"] = obj("Storage"); O["srvi"] = obj("Server", storage=["ref", "sti"])
+        O["ji"] = obj("Job", server=["ref", "srvi"], request_duration=q(90, "s"), data_transferred=q(3137, "kB"))
+        O["si"] = obj("UsageJourneyStep", user_time_spent=q(20, "min"), jobs=["refs", ["ji"]])
+        O["uji"] = obj("UsageJourney", uj_steps=["refs", ["si"]])
+        O["ni"] = obj("Network", bandwidth_energy_intensity=q(0.07, "kWh/GB"))
+        O["upi"] = obj("UsagePattern", usage_journey=["ref", "uji"], network=["ref", "ni"], country=["ref", "c0"], devices=["refs", ["d0"]],
+                       hourly_usage_journey_starts=["h", [rnd.choice(START_VALUES[2:]) for _ in range(9)], rnd.choice(STARTS), "dimensionless"])
+        ups_.append("upi")
+    O["system"] = {"cls": "System", "params": {"usage_patterns": ["refs", ups_]}}
     return prune({"objects": O, "system": "system"})
 
 
@@ -177,6 +189,8 @@ def topo_classes(spec):
         tags.add("multi_timezone")
     if "cdst0" in O and "cdst1" in O:
         tags.add("same_span_dst_gap_pair")
+    if "upi" in O:
+        tags.add("island_pattern")
     wins = sorted(window_utc(spec, up) for up in ups)
     for (a0, a1), (b0, b1) in zip(wins, wins[1:]):
         if b0 > a1 + timedelta(hours=14):
